@@ -535,7 +535,7 @@ func init() {
 				c.NonTrivial(k.Hash())
 			}
 		})...)
-		us = append(us, coldUnit("nasMessage", "decode", "encode"))
+		us = append(us, coldUnits(tier, "nasMessage", "decode", "encode")...)
 		return us
 	}
 	core.Register(p)
